@@ -323,6 +323,7 @@ func main() {
 	genJSON(repo, gen, fx)
 	genCharset(repo, gen, fx)
 	genSync(rootFiles, repo, gen, fx)
+	genWrites(repo, gen, fx)
 
 	js, _ := json.MarshalIndent(fx, "", " ")
 	os.WriteFile(factsPath, js, 0o644)
